@@ -51,9 +51,15 @@ def run(points):
             return {"what": "reported design is not a feasible recorded point", "reported": repr(sol.design), "feasible": xs}
         o = dict(points)[int(sol.design[0])]
         with_obj = [o2["f"] for _, o2 in feasible if "f" in o2]
-        if "f" not in o or float(np.ravel(sol.objective)[0]) != o["f"]:
+        if "f" not in o:
+            # the reported point has no recorded objective: nothing may be reported for it, and no feasible point may have one
+            if sol.objective is not None:
+                return {"what": "an objective is reported for a point that has no recorded objective", "reported": repr(sol.objective)}
+            if with_obj:
+                return {"what": "a feasible recorded point has an objective value but the reported one has none", "best": min(with_obj)}
+        elif sol.objective is None or float(np.ravel(sol.objective)[0]) != o["f"]:
             return {"what": "reported objective is not the one recorded for the reported point", "reported": repr(sol.objective)}
-        if with_obj and min(with_obj) < o["f"]:
+        elif with_obj and min(with_obj) < o["f"]:
             return {"what": "a feasible recorded point has a smaller objective", "reported": o["f"], "best": min(with_obj)}
         for c in ("g", "h"):
             if c in o and float(np.ravel(sol.constraints[c])[0]) != o[c]:
